@@ -1,11 +1,13 @@
 #!/bin/bash
 # usage: tryseed.sh <patch.diff> <PID> [PID...]   applies the patch to /repo, runs the checks, reverts.
+# Evidence files are saved and restored, so committed evidence always comes from the unchanged tree.
 patch="$1"; shift
 cd /repo || exit 2
 if ! git diff --quiet; then echo "/repo is dirty; refusing"; exit 2; fi
-if ! git apply "$patch"; then echo "patch does not apply"; exit 3; fi
-trap 'git -C /repo checkout -- . ; git -C /repo clean -fdq -- ipp util examples 2>/dev/null' EXIT
-rc=0
+if ! git apply "$patch" 2>/dev/null && ! git apply -3 "$patch" 2>/dev/null; then echo "patch does not apply"; exit 3; fi
+git reset -q 2>/dev/null
+save=$(mktemp -d /tmp/evsave.XXXXXX); cp /verif/evidence/*.json "$save"/ 2>/dev/null
+trap 'git -C /repo checkout -- . ; git -C /repo clean -fdq -- ipp util examples 2>/dev/null; cp "$save"/*.json /verif/evidence/ 2>/dev/null; rm -rf "$save" /verif/evidence/violations' EXIT
 for p in "$@"; do
   (cd /verif && ./check "$p" ${TIER:+--tier $TIER}) 2>&1 | grep -v "conda.cli" | tail -${LINES_OUT:-8}
 done
